@@ -62,6 +62,9 @@ def step (st : St) (toks : List String) : St × String :=
     match fuel.toNat?, parseSx rest with
     | some n, some (e, []) =>
       let st0 := { st with out := [] }
+      -- flag `g`: the glue of `Wal.eval` (`if sexpr is not None:`)
+      let isNone := match e with | .none => true | _ => false
+      if flags.toList.contains 'g' && isNone then (st, "ok N ; ") else
       (match walEval (parseMode flags) n st0 e with
         | .ok (v, st') => ({ st' with out := [] }, "ok " ++ showSx st'.arr? v ++ " ; " ++ showOut st')
         | .error .fuel => (st, "fuel")
